@@ -1316,9 +1316,17 @@ class PyCdlib:
 
         old = self._cdfp.tell()
         self._seek_to_extent(eltorito_boot_catalog_extent)
-        data = self._cdfp.read(32)
-        while not self.eltorito_boot_catalog.parse(data):
-            data = self._cdfp.read(32)
+        # The catalog is one logical block; when it is completely full (an
+        # Initial Entry and 31 sections) there is no room left for an entry
+        # that says it ends.
+        num_entries_left = self.logical_block_size // 32
+        done = False
+        while not done and num_entries_left > 0:
+            num_entries_left -= 1
+            done = self.eltorito_boot_catalog.parse(self._cdfp.read(32))
+        if not done:
+            # The end of the block is the end of the catalog.
+            self.eltorito_boot_catalog.parse(b'\x00' * 32)
         self._cdfp.seek(old)
 
     def _udf_assign_extents(self, udf_files, current_extent):
